@@ -3,6 +3,7 @@ package rules
 import (
 	"fmt"
 	"go/ast"
+	"go/token"
 	"go/types"
 	"math/big"
 	"strings"
@@ -187,26 +188,111 @@ type armEnv struct {
 	arms   map[string]*symEnv // "TopLeft", "BottomLeft"
 }
 
+// cornerArms finds the case analysis on tm.CornerOfOrigin in f: a switch {default: fallthrough; case TopLeft;
+// case BottomLeft} or the equivalent `if corner == BottomLeft {…} else {…}` (any value but BottomLeft means TopLeft).
+// It returns the statement that holds it, the two arms, and a description of the form.
+func cornerArms(c *core.Ctx, f *core.Func) (holder ast.Stmt, topLeft, bottomLeft []ast.Stmt, form string) {
+	info := f.Pkg.TypesInfo
+	isCorner := func(e ast.Expr) bool {
+		fv := core.FieldOf(info, e)
+		return fv != nil && fv.Name() == "CornerOfOrigin"
+	}
+	constName := func(e ast.Expr) string {
+		if o := core.ObjOf(info, e); o != nil {
+			if _, ok := o.(*types.Const); ok {
+				return o.Name()
+			}
+		}
+		return ""
+	}
+	for _, s := range f.Decl.Body.List {
+		switch st := s.(type) {
+		case *ast.SwitchStmt:
+			if st.Tag == nil || !isCorner(st.Tag) {
+				continue
+			}
+			defaultFallsIntoTopLeft := false
+			var prevDefaultFT bool
+			var labels []string
+			for _, cc := range st.Body.List {
+				cl := cc.(*ast.CaseClause)
+				ft := len(cl.Body) > 0 && func() bool { b, ok := cl.Body[len(cl.Body)-1].(*ast.BranchStmt); return ok && b.Tok == token.FALLTHROUGH }()
+				if cl.List == nil {
+					labels = append(labels, "default")
+					prevDefaultFT = ft && len(cl.Body) == 1
+					continue
+				}
+				if len(cl.List) != 1 {
+					labels = append(labels, "multi")
+					continue
+				}
+				lab := constName(cl.List[0])
+				labels = append(labels, lab)
+				switch lab {
+				case "TopLeft":
+					topLeft = cl.Body
+					if prevDefaultFT {
+						defaultFallsIntoTopLeft = true
+					}
+				case "BottomLeft":
+					bottomLeft = cl.Body
+				}
+				prevDefaultFT = false
+			}
+			form = "switch " + strings.Join(labels, ",")
+			if !defaultFallsIntoTopLeft || len(labels) != 3 {
+				form += " (default does not fall through to TopLeft)"
+				return st, nil, nil, form
+			}
+			return st, topLeft, bottomLeft, form
+		case *ast.IfStmt:
+			be, ok := ast.Unparen(st.Cond).(*ast.BinaryExpr)
+			if !ok || st.Init != nil || st.Else == nil || !(be.Op == token.EQL || be.Op == token.NEQ) {
+				continue
+			}
+			var k string
+			switch {
+			case isCorner(be.X):
+				k = constName(be.Y)
+			case isCorner(be.Y):
+				k = constName(be.X)
+			default:
+				continue
+			}
+			els, ok := st.Else.(*ast.BlockStmt)
+			if !ok {
+				continue
+			}
+			if k != "BottomLeft" {
+				return st, nil, nil, "if on " + k + " (any unknown value would be treated as BottomLeft, siblings treat it as TopLeft)"
+			}
+			if be.Op == token.EQL {
+				return st, els.List, st.Body.List, "if corner == BottomLeft … else …"
+			}
+			return st, st.Body.List, els.List, "if corner != BottomLeft … else …"
+		}
+	}
+	return nil, nil, nil, "no case analysis on tm.CornerOfOrigin"
+}
+
 func evalWithCornerSwitch(c *core.Ctx, f *core.Func) *armEnv {
 	info := f.Pkg.TypesInfo
 	env := newSymEnv(c.P, info)
 	out := &armEnv{common: env, arms: map[string]*symEnv{}}
+	holder, tl, bl, _ := cornerArms(c, f)
 	for _, s := range f.Decl.Body.List {
-		sw, ok := s.(*ast.SwitchStmt)
-		if !ok || sw.Tag == nil || canon(sw.Tag) != "tm.CornerOfOrigin" {
-			env.run([]ast.Stmt{s})
+		if holder != nil && s == holder {
+			if tl != nil && bl != nil {
+				a := env.clone()
+				a.run(tl)
+				out.arms["TopLeft"] = a
+				b := env.clone()
+				b.run(bl)
+				out.arms["BottomLeft"] = b
+			}
 			continue
 		}
-		for _, cc := range sw.Body.List {
-			cl := cc.(*ast.CaseClause)
-			if cl.List == nil {
-				continue // default: falls through (checked by R42)
-			}
-			label := canon(cl.List[0])
-			ae := env.clone()
-			ae.run(cl.Body)
-			out.arms[label] = ae
-		}
+		env.run([]ast.Stmt{s})
 	}
 	return out
 }
